@@ -318,6 +318,10 @@ def _undef(msg: str):
 DYADIC = [Fraction(1, 2), Fraction(3, 2), Fraction(1, 4), Fraction(5, 2), Fraction(2), Fraction(3)]
 
 
+def _numeric(rng, e: tuple) -> tuple:
+    return ("int", rng.randint(0, 4)) if maybe_bool(e) else e
+
+
 def gen_expr(rng, names: list[str], depth: int, wild: bool, flags: set[str]) -> tuple:
     """A random expression over `names`.  wild=True also draws constructs the exporter must refuse
     (flags gets "mayrefuse") and shapes that are not meant to be evaluated."""
@@ -341,7 +345,7 @@ def gen_expr(rng, names: list[str], depth: int, wild: bool, flags: set[str]) -> 
         op = rng.choice(["Mult", "Mult", "Add", "Add", "Sub", "Div", "FloorDiv"])
         return ("bin", op, sub(), sub())
     if k == "pow":
-        return ("bin", "Pow", sub(), ("int", rng.randint(0, 3))) if rng.random() < 0.7 else ("callattr", "np", "power", [sub(), ("int", 2)], False)
+        return ("bin", "Pow", sub(), ("int", rng.randint(0, 3))) if rng.random() < 0.7 else ("callattr", "np", "power", [_numeric(rng, sub()), ("int", 2)], False)
     if k == "un":
         return ("un", "USub", sub())
     cmpop = lambda: rng.choice(["Eq", "NotEq", "Lt", "LtE", "Gt", "GtE"])  # noqa: E731
@@ -364,11 +368,14 @@ def gen_expr(rng, names: list[str], depth: int, wild: bool, flags: set[str]) -> 
         flags.add("function")
         f = rng.choice(UNARY_FNS)
         r = rng.random()
+        a = sub()
+        if maybe_bool(a):
+            a = ("int", rng.randint(0, 4))  # numpy.<fn>(bool) computes in float16: not a property of the exporter
         if r < 0.45 and f in MATH_HAS:
-            return ("callattr", "math", f, [sub()], False)
+            return ("callattr", "math", f, [a], False)
         if r < 0.55 and f in ("sqrt", "sin", "log", "abs"):
-            return ("callname", f, [sub()], False)
-        return ("callattr", rng.choice(["np", "numpy"]), f, [sub()], False)
+            return ("callname", f, [a], False)
+        return ("callattr", rng.choice(["np", "numpy"]), f, [a], False)
     if k == "calln":
         flags.add("function")
         f = rng.choice(["max", "min"])
@@ -411,6 +418,99 @@ def gen_expr(rng, names: list[str], depth: int, wild: bool, flags: set[str]) -> 
     if c == 5:
         return ("callname", "max", [sub()], True)
     return ("callattr", "np", "sqrt", [sub(), sub()], False)
+
+
+def _boolean(e: tuple) -> bool:
+    return e[0] in ("cmp", "bool") or (e[0] == "un" and e[1] == "Not")
+
+
+def maybe_bool(e: tuple) -> bool:
+    """May the Python value of `e` be a bool object (rather than an int/float)?"""
+    if _boolean(e):
+        return True
+    if e[0] == "if":
+        return maybe_bool(e[2]) or maybe_bool(e[3])
+    if e[0] == "callname" and e[1] in ("max", "min"):
+        return any(maybe_bool(x) for x in e[2])
+    return False
+
+
+def mixes_bool_num(e: tuple, want_bool: bool = False) -> bool:
+    """True if a truth value is used as a number or a number as a condition somewhere in `e`."""
+    k = e[0]
+    if _boolean(e) != want_bool and k not in ("if",):
+        return True
+    if k == "if":
+        return want_bool or mixes_bool_num(e[1], True) or mixes_bool_num(e[2]) or mixes_bool_num(e[3])
+    if k == "un":
+        return mixes_bool_num(e[2], e[1] == "Not")
+    if k == "bin":
+        return mixes_bool_num(e[2]) or mixes_bool_num(e[3])
+    if k == "cmp":
+        return mixes_bool_num(e[1]) or any(mixes_bool_num(x) for _o, x in e[2])
+    if k == "callname":
+        return any(mixes_bool_num(x) for x in e[2])
+    if k == "callattr":
+        return any(mixes_bool_num(x) for x in e[3])
+    if k == "callother":
+        return any(mixes_bool_num(x) for x in e[1])
+    return False
+
+
+CORE_FNS = ["sqrt", "abs", "sin", "cos", "tanh", "arctan", "log", "log10", "ceil", "sinh", "arcsinh"]
+
+
+def gen_core_expr(rng, names: list[str], depth: int, flags: set[str]) -> tuple:
+    """The constructs the property names, numbers kept apart from truth values: arithmetic, powers, unary minus,
+    conditional expressions whose test is a single / chained comparison (possibly negated), table functions on
+    arguments inside their domain, n-ary max/min.  (Document level: the importer is pysbml + SymPy, which refuses a
+    comparison used as a number or a number used as a condition -- recorded finding `boolean-as-number-import`.)"""
+    if depth <= 0 or rng.random() < 0.2:
+        r = rng.random()
+        if names and r < 0.65:
+            return ("name", rng.choice(names))
+        if r < 0.82:
+            return ("int", rng.randint(0, 4))
+        if r < 0.97:
+            return ("real", rng.choice(DYADIC))
+        return ("attr", rng.choice(["math", "np"]), rng.choice(["pi", "e"]))
+    sub = lambda d=depth - 1: gen_core_expr(rng, names, d, flags)  # noqa: E731
+    cmpop = lambda: rng.choice(["Eq", "NotEq", "Lt", "LtE", "Gt", "GtE"])  # noqa: E731
+    k = rng.choice(["bin"] * 6 + ["un", "cmpif", "cmpif", "chainif", "chainif", "notif", "call1", "call1", "calln", "pow", "div"])
+    if k == "bin":
+        return ("bin", rng.choice(["Mult", "Mult", "Add", "Add", "Sub"]), sub(), sub())
+    if k == "div":
+        den = rng.choice([("int", 2), ("real", Fraction(1, 2)), ("int", 4), ("bin", "Add", ("callname", "abs", [sub(1)], False), ("int", 1))])
+        if den[0] == "bin":
+            flags.add("function")
+        return ("bin", "Div", sub(), den)
+    if k == "pow":
+        return ("bin", "Pow", sub(), ("int", rng.randint(0, 3))) if rng.random() < 0.7 else ("callattr", "np", "power", [sub(), ("int", 2)], False)
+    if k == "un":
+        return ("un", "USub", sub())
+    if k == "cmpif":
+        flags.add("conditional")
+        return ("if", ("cmp", sub(1), [(cmpop(), sub(1))]), sub(), sub())
+    if k == "chainif":
+        flags.add("chained")
+        return ("if", ("cmp", sub(1), [(cmpop(), sub(1)) for _ in range(rng.randint(2, 3))]), sub(), sub())
+    if k == "notif":
+        flags.add("conditional")
+        return ("if", ("un", "Not", ("cmp", sub(1), [(cmpop(), sub(1))])), sub(), sub())
+    if k == "call1":
+        flags.add("function")
+        f = rng.choice(CORE_FNS)
+        a = sub()
+        if f in ("sqrt", "log", "log10"):
+            a = ("bin", "Add", ("callname", "abs", [a], False), ("int", 1))
+        r = rng.random()
+        if r < 0.4 and f in MATH_HAS:
+            return ("callattr", "math", f, [a], False)
+        if r < 0.5 and f in ("sqrt", "sin", "log", "abs"):
+            return ("callname", f, [a], False)
+        return ("callattr", rng.choice(["np", "numpy"]), f, [a], False)
+    flags.add("function")
+    return ("callname", rng.choice(["max", "min"]), [sub() for _ in range(rng.randint(2, 3))], False)
 
 
 def gen_function(rng, n_params: int, depth: int, wild: bool) -> dict:
